@@ -130,6 +130,7 @@ pub fn run_lines(sh: &mut shell::Shell,
         }
         Err(e) => {
             println_stderr!("syntax error: {:?}", e);
+            cr_list.push(CommandResult::error());
             return cr_list;
         }
     }
